@@ -1,0 +1,65 @@
+//go:build verif
+
+package parser
+
+// Contracts for the govc verification-condition generator (see /verif/DESIGN.md, sections 1.2, 4.1, 4.2, 4.8).
+// This file is comment-only: it contains no declarations and changes no compiled code.
+
+// Default contract of every (*Parser) method that is not listed under `except`:
+// the cursor never goes backwards, the recursion depth is restored on every
+// exit (including error exits), and the per-call inputs and the holder's
+// configuration are not touched.
+//@ func (*Parser).*
+//@   except (*Parser).Reset, (*Parser).Release, (*Parser).Parse, (*Parser).ParseContext, (*Parser).ParseWithPositions
+//@   except (*Parser).parseWithRecovery, (*Parser).ParseWithRecovery, (*Parser).ApplyOptions
+//@   except (*Parser).ParseFromModelTokens, (*Parser).ParseFromModelTokensWithPositions, (*Parser).ParseContextFromModelTokens
+//@   except (*Parser).ParseWithRecoveryFromModelTokens
+//@   requires 0 <= recv.currentPos
+//@   ensures  recv.currentPos >= old(recv.currentPos)
+//@   ensures  recv.depth == old(recv.depth)
+//@   ensures  recv.tokens == old(recv.tokens)
+//@   ensures  recv.positions == old(recv.positions)
+//@   ensures  recv.strict == old(recv.strict) && recv.dialect == old(recv.dialect)
+
+// Entry points. Per-call state is (re)assigned before the statement loop reads
+// it, so a result never depends on what the instance did before (C08); the
+// recursion depth, the context slot and the holder's configuration are the
+// same on every exit, including error and cancellation exits (C08, C11).
+
+//@ func (*Parser).Parse
+//@   ensures p.depth == old(p.depth) && p.ctx == old(p.ctx)
+//@   ensures p.strict == old(p.strict) && p.dialect == old(p.dialect)
+//@   ensures p.positions == nil
+//@   loop 1 invariant 0 <= p.currentPos && p.positions == nil && p.tokens == tokens
+
+//@ func (*Parser).ParseContext
+//@   ensures p.depth == old(p.depth)
+//@   ensures implies(old(p.ctx) == nil, p.ctx == nil)
+//@   ensures p.strict == old(p.strict) && p.dialect == old(p.dialect)
+//@   loop 1 invariant 0 <= p.currentPos && p.positions == nil && p.tokens == tokens && p.ctx == ctx
+
+//@ func (*Parser).ParseWithPositions
+//@   ensures p.depth == old(p.depth) && p.ctx == old(p.ctx)
+//@   ensures p.strict == old(p.strict) && p.dialect == old(p.dialect)
+//@   loop 1 invariant 0 <= p.currentPos && p.positions == old(result.PositionMapping) && p.tokens == old(result.Tokens)
+
+//@ func (*Parser).parseWithRecovery
+//@   ensures p.depth == old(p.depth) && p.ctx == old(p.ctx)
+//@   ensures p.strict == old(p.strict) && p.dialect == old(p.dialect)
+//@   ensures p.positions == nil
+//@   loop 1 invariant 0 <= p.currentPos && p.positions == nil && p.tokens == tokens
+
+//@ func (*Parser).ParseWithRecovery
+//@   ensures p.depth == old(p.depth) && p.ctx == old(p.ctx) && p.strict == old(p.strict) && p.dialect == old(p.dialect)
+
+//@ func (*Parser).ParseFromModelTokens
+//@   ensures p.depth == old(p.depth) && p.ctx == old(p.ctx) && p.strict == old(p.strict) && p.dialect == old(p.dialect)
+
+//@ func (*Parser).ParseContextFromModelTokens
+//@   ensures p.depth == old(p.depth) && p.strict == old(p.strict) && p.dialect == old(p.dialect)
+
+//@ func (*Parser).ParseFromModelTokensWithPositions
+//@   ensures p.depth == old(p.depth) && p.ctx == old(p.ctx) && p.strict == old(p.strict) && p.dialect == old(p.dialect)
+
+//@ func (*Parser).ParseWithRecoveryFromModelTokens
+//@   ensures p.depth == old(p.depth) && p.ctx == old(p.ctx) && p.strict == old(p.strict) && p.dialect == old(p.dialect)
